@@ -65,6 +65,7 @@ type Ctx struct {
 	FuncsAnalysed map[string]bool
 	SelfTest      *SelfTestResult
 	orbitOnly     bool
+	memoMode      bool
 	seenKeys      map[string]int
 }
 
